@@ -1,3 +1,663 @@
 import MgModel.C15.Pipe
-namespace MgProof.C15
-end MgProof.C15
+/-!
+# C15 — lemmas about the event-loop pipe model (`MgModel.C15.Pipe`)
+
+The invariant `PInv` of the N-writers / 1-reader program and its preservation by every
+step of every thread (hence for every schedule, every FIFO capacity, every split of the
+byte stream into partial writes and partial reads).
+-/
+namespace MgProof.C15.Pipe
+open MgModel.C15.Pipe MgModel.Conc
+
+theorem msgBytes_length (m : Nat) : (msgBytes m).length = 8 := by simp [msgBytes]
+
+theorem xfer_le_req (a b c : Nat) : xfer a b c ≤ a := by
+  unfold xfer; simp only []; split <;> omega
+
+theorem xfer_le_avail (a b c : Nat) : xfer a b c ≤ b := by
+  unfold xfer; simp only []; split <;> omega
+
+/-- the writer is inside the locked section -/
+def inCs : WPc → Bool
+  | .fence => true | .wr _ => true | .slp _ => true | .unl => true
+  | _ => false
+
+/-- the pointer whose write is in progress -/
+def cur (s : St) : List Nat :=
+  match s.holder with
+  | some w => [(s.todo w).headD 0]
+  | none => []
+
+/-- pointers written by writer `w` so far, in order -/
+def proj (l : List (Nat × Nat)) (w : Nat) : List Nat := (l.filter (fun p => p.1 == w)).map Prod.snd
+
+structure PInv (s : St) : Prop where
+  lock01 : s.lock = 0 ∨ s.lock = 1
+  lockHolder : s.lock = 1 ↔ s.holder ≠ none
+  cs : ∀ w, inCs (s.wpc w) = true ↔ s.holder = some w
+  /-- what the holder still has to put into the pipe, by program counter -/
+  link : ∀ w, s.holder = some w → ∃ m rest, s.todo w = m :: rest ∧
+            (s.wpc w = .fence → s.unsent = msgBytes m) ∧
+            (∀ rem, (s.wpc w = .wr rem ∨ s.wpc w = .slp rem) →
+                s.unsent = (msgBytes m).drop (8 - rem) ∧ 0 < rem ∧ rem ≤ 8) ∧
+            (s.wpc w = .unl → s.unsent = [])
+  idle : s.holder = none → s.unsent = []
+  /-- conservation of the byte stream -/
+  stream : s.delivered.flatten ++ (s.buf ++ s.fifo ++ s.unsent) =
+             ((s.doneLog.map Prod.snd) ++ cur s).flatMap msgBytes
+  order : ∀ w, proj s.doneLog w ++ s.todo w = s.progs w
+  busy : ∀ w, (s.wpc w = .acq ∨ s.wpc w = .yld) → s.todo w ≠ []
+  fin : ∀ w, s.wpc w = .done → s.todo w = []
+  rbuf : (∀ off, (s.rpc = .rd off ∨ s.rpc = .slp off) → s.buf.length = off ∧ off < 8) ∧
+         (s.rpc = .fence → s.buf.length = 8) ∧ ((s.rpc = .yld ∨ s.rpc = .done) → s.buf = [])
+  groups : ∀ g ∈ s.delivered, g.length = 8
+  outside : ∀ w, s.nw ≤ w → s.wpc w = .done
+
+/-! ## preservation, by kind of step -/
+
+theorem cur_congr {s s' : St} (h1 : s'.holder = s.holder) (h2 : s'.todo = s.todo) : cur s' = cur s := by
+  unfold cur; rw [h1, h2]
+
+/-- steps that only move a writer's program counter between `acq` and `yld` -/
+theorem pinv_spin {s : St} (hi : PInv s) (t : Nat) (ht : t < s.nw) (pc : WPc)
+    (hold : s.wpc t = .acq ∨ s.wpc t = .yld) (hnew : pc = .acq ∨ pc = .yld) :
+    PInv { s with wpc := upd s.wpc t pc } := by
+  have hcs := hi.cs t
+  have hnot : s.holder ≠ some t := by
+    intro h; have := (hcs.mpr h); rcases hold with h' | h' <;> simp [h', inCs] at this
+  constructor
+  · exact hi.lock01
+  · exact hi.lockHolder
+  · intro w
+    by_cases hw : w = t
+    · subst hw
+      simp only [upd_same]
+      constructor
+      · intro h; rcases hnew with h' | h' <;> simp [h', inCs] at h
+      · intro h; exact absurd h hnot
+    · simp only [upd, hw, if_false]; exact hi.cs w
+  · intro w hw
+    have hne : w ≠ t := by intro e; subst e; exact hnot hw
+    obtain ⟨m, rest, h1, h2, h3, h4⟩ := hi.link w hw
+    refine ⟨m, rest, h1, ?_, ?_, ?_⟩ <;> simp only [upd, hne, if_false] <;> assumption
+  · exact hi.idle
+  · exact hi.stream
+  · exact hi.order
+  · intro w hw
+    by_cases hwt : w = t
+    · subst hwt; exact hi.busy w hold
+    · simp only [upd, hwt, if_false] at hw; exact hi.busy w hw
+  · intro w hw
+    by_cases hwt : w = t
+    · subst hwt; simp only [upd_same] at hw; rcases hnew with h' | h' <;> simp [h'] at hw
+    · simp only [upd, hwt, if_false] at hw; exact hi.fin w hw
+  · exact hi.rbuf
+  · exact hi.groups
+  · intro w hw
+    have hw' : s.nw ≤ w := hw
+    have hwt : w ≠ t := by omega
+    simp only [upd, hwt, if_false]; exact hi.outside w hw'
+
+/-- a step of the lock holder inside the locked section -/
+theorem pinv_holder_step {s : St} (hi : PInv s) (t : Nat) (ht : t < s.nw) (hh : s.holder = some t) (pc : WPc)
+    (hcs : inCs pc = true) (fifo' unsent' : List Nat) (wi' : Nat)
+    (hstream : fifo' ++ unsent' = s.fifo ++ s.unsent)
+    (hlink : ∀ m rest, s.todo t = m :: rest →
+        (pc = .fence → unsent' = msgBytes m) ∧
+        (∀ rem, (pc = .wr rem ∨ pc = .slp rem) → unsent' = (msgBytes m).drop (8 - rem) ∧ 0 < rem ∧ rem ≤ 8) ∧
+        (pc = .unl → unsent' = [])) :
+    PInv { s with wpc := upd s.wpc t pc, fifo := fifo', unsent := unsent', wi := wi' } := by
+  have hin : inCs (s.wpc t) = true := (hi.cs t).mpr hh
+  constructor
+  · exact hi.lock01
+  · exact hi.lockHolder
+  · intro w
+    by_cases hw : w = t
+    · subst hw; simp only [upd_same, hcs, true_iff]; exact hh
+    · simp only [upd, hw, if_false]; exact hi.cs w
+  · intro w hw
+    have hwt : w = t := by
+      have : s.holder = some w := hw
+      rw [hh] at this; injection this with this; exact this.symm
+    subst hwt
+    obtain ⟨m, rest, h1, _⟩ := hi.link w hh
+    obtain ⟨a, b, c⟩ := hlink m rest h1
+    refine ⟨m, rest, h1, ?_, ?_, ?_⟩ <;> simp only [upd_same] <;> assumption
+  · intro h
+    have : s.holder = none := h
+    rw [hh] at this; cases this
+  · have := hi.stream
+    show s.delivered.flatten ++ (s.buf ++ fifo' ++ unsent') = _
+    rw [List.append_assoc s.buf, hstream, ← List.append_assoc s.buf]
+    exact this
+  · exact hi.order
+  · intro w hw
+    by_cases hwt : w = t
+    · subst hwt; simp only [upd_same] at hw; rcases hw with h | h <;> simp [h, inCs] at hcs
+    · simp only [upd, hwt, if_false] at hw; exact hi.busy w hw
+  · intro w hw
+    by_cases hwt : w = t
+    · subst hwt; simp only [upd_same] at hw; simp [hw, inCs] at hcs
+    · simp only [upd, hwt, if_false] at hw; exact hi.fin w hw
+  · exact hi.rbuf
+  · exact hi.groups
+  · intro w hw
+    have hw' : s.nw ≤ w := hw
+    have hwt : w ≠ t := by omega
+    simp only [upd, hwt, if_false]; exact hi.outside w hw'
+
+theorem holder_none_of_unlocked {s : St} (hi : PInv s) (h : s.lock = 0) : s.holder = none := by
+  cases hh : s.holder with
+  | none => rfl
+  | some w =>
+    have := hi.lockHolder.mpr (by simp [hh])
+    omega
+
+/-- the test_and_set succeeds -/
+theorem pinv_acquire {s : St} (hi : PInv s) (t : Nat) (ht : t < s.nw) (hpc : s.wpc t = .acq) (hl : s.lock = 0) :
+    PInv { s with lock := 1, wpc := upd s.wpc t .fence, holder := some t,
+                  unsent := msgBytes ((s.todo t).headD 0) } := by
+  have hn := holder_none_of_unlocked hi hl
+  have hne := hi.busy t (Or.inl hpc)
+  obtain ⟨m, rest, hm⟩ : ∃ m rest, s.todo t = m :: rest := by
+    cases h : s.todo t with
+    | nil => exact absurd h hne
+    | cons m rest => exact ⟨m, rest, rfl⟩
+  have hu := hi.idle hn
+  constructor
+  · exact Or.inr rfl
+  · simp
+  · intro w
+    by_cases hw : w = t
+    · subst hw; simp [inCs]
+    · simp only [upd, hw, if_false]
+      have := hi.cs w
+      rw [hn] at this
+      constructor
+      · intro h; exact absurd (this.mp h) (by simp)
+      · intro h; injection h with h; exact absurd h.symm hw
+  · intro w hw
+    have hwt : w = t := by injection hw with hw; exact hw.symm
+    subst hwt
+    refine ⟨m, rest, hm, ?_, ?_, ?_⟩
+    · intro _; simp [hm]
+    · intro rem h; simp only [upd_same] at h; rcases h with h | h <;> cases h
+    · intro h; simp only [upd_same] at h; cases h
+  · intro h; cases h
+  · have := hi.stream
+    simp only [cur, hn, hu, List.append_nil] at this
+    show s.delivered.flatten ++ (s.buf ++ s.fifo ++ msgBytes ((s.todo t).headD 0)) =
+      ((s.doneLog.map Prod.snd) ++ [(s.todo t).headD 0]).flatMap msgBytes
+    rw [List.flatMap_append, ← this]
+    simp [List.append_assoc]
+  · exact hi.order
+  · intro w hw
+    by_cases hwt : w = t
+    · subst hwt; simp only [upd_same] at hw; rcases hw with h | h <;> cases h
+    · simp only [upd, hwt, if_false] at hw; exact hi.busy w hw
+  · intro w hw
+    by_cases hwt : w = t
+    · subst hwt; simp only [upd_same] at hw; cases hw
+    · simp only [upd, hwt, if_false] at hw; exact hi.fin w hw
+  · exact hi.rbuf
+  · exact hi.groups
+  · intro w hw
+    have hw' : s.nw ≤ w := hw
+    have hwt : w ≠ t := by omega
+    simp only [upd, hwt, if_false]; exact hi.outside w hw'
+
+theorem proj_append (l : List (Nat × Nat)) (t m w : Nat) :
+    proj (l ++ [(t, m)]) w = if t = w then proj l w ++ [m] else proj l w := by
+  unfold proj
+  by_cases h : t = w
+  · simp [h, List.filter_append]
+  · have : (t == w) = false := by simp [h]
+    simp [h, List.filter_append, this]
+
+/-- the holder clears the lock: its pointer is committed -/
+theorem pinv_unlock {s : St} (hi : PInv s) (t : Nat) (ht : t < s.nw) (hpc : s.wpc t = .unl) :
+    PInv { s with lock := 0, holder := none, doneLog := s.doneLog ++ [(t, (s.todo t).headD 0)],
+                  todo := upd s.todo t (s.todo t).tail,
+                  wpc := upd s.wpc t (if (s.todo t).tail.isEmpty then .done else .acq) } := by
+  have hh : s.holder = some t := (hi.cs t).mp (by simp [hpc, inCs])
+  obtain ⟨m, rest, hm, _, _, hu⟩ := hi.link t hh
+  have hu := hu hpc
+  constructor
+  · exact Or.inl rfl
+  · simp
+  · intro w
+    by_cases hw : w = t
+    · subst hw
+      simp only [upd_same]
+      constructor
+      · intro h; split at h <;> simp [inCs] at h
+      · intro h; cases h
+    · simp only [upd, hw, if_false]
+      have := hi.cs w
+      rw [hh] at this
+      constructor
+      · intro h; have := this.mp h; injection this with this; exact absurd this.symm hw
+      · intro h; cases h
+  · intro w hw; cases hw
+  · intro _; exact hu
+  · have := hi.stream
+    simp only [cur, hh] at this
+    show s.delivered.flatten ++ (s.buf ++ s.fifo ++ s.unsent) =
+      (((s.doneLog ++ [(t, (s.todo t).headD 0)]).map Prod.snd) ++ []).flatMap msgBytes
+    rw [this]
+    simp
+  · intro w
+    show proj (s.doneLog ++ [(t, (s.todo t).headD 0)]) w ++ upd s.todo t (s.todo t).tail w = s.progs w
+    rw [proj_append]
+    by_cases hw : t = w
+    · subst hw
+      have := hi.order t
+      simp only [if_true, upd_same, hm, List.headD_cons, List.tail_cons] at this ⊢
+      rw [← this]; simp
+    · have hw' : w ≠ t := fun e => hw e.symm
+      simp only [hw, if_false, upd, hw']
+      exact hi.order w
+  · intro w hw
+    by_cases hwt : w = t
+    · subst hwt
+      simp only [upd_same] at hw ⊢
+      split at hw
+      · rcases hw with h | h <;> cases h
+      · rename_i hne; intro e; rw [e] at hne; simp at hne
+    · simp only [upd, hwt, if_false] at hw ⊢; exact hi.busy w hw
+  · intro w hw
+    by_cases hwt : w = t
+    · subst hwt
+      simp only [upd_same] at hw ⊢
+      split at hw
+      · rename_i he; simpa using he
+      · cases hw
+    · simp only [upd, hwt, if_false] at hw ⊢; exact hi.fin w hw
+  · exact hi.rbuf
+  · exact hi.groups
+  · intro w hw
+    have hw' : s.nw ≤ w := hw
+    have hwt : w ≠ t := by omega
+    simp only [upd, hwt, if_false]; exact hi.outside w hw'
+
+/-- a step of the reader -/
+theorem pinv_reader {s : St} (hi : PInv s) (buf' fifo' : List Nat) (del' : List (List Nat)) (rpc' : RPc) (ri' : Nat)
+    (hstream : del'.flatten ++ (buf' ++ fifo') = s.delivered.flatten ++ (s.buf ++ s.fifo))
+    (hr : (∀ off, (rpc' = .rd off ∨ rpc' = .slp off) → buf'.length = off ∧ off < 8) ∧
+          (rpc' = .fence → buf'.length = 8) ∧ ((rpc' = .yld ∨ rpc' = .done) → buf' = []))
+    (hg : ∀ g ∈ del', g.length = 8) :
+    PInv { s with buf := buf', fifo := fifo', delivered := del', rpc := rpc', ri := ri' } := by
+  constructor
+  · exact hi.lock01
+  · exact hi.lockHolder
+  · exact hi.cs
+  · exact hi.link
+  · exact hi.idle
+  · have := hi.stream
+    show del'.flatten ++ (buf' ++ fifo' ++ s.unsent) = ((s.doneLog.map Prod.snd) ++ cur s).flatMap msgBytes
+    rw [← List.append_assoc, hstream, List.append_assoc]
+    simpa [List.append_assoc] using this
+  · exact hi.order
+  · exact hi.busy
+  · exact hi.fin
+  · exact hr
+  · exact hg
+  · exact hi.outside
+
+/-! ## every step of every thread -/
+
+theorem writerStep_inv {s s' : St} {ev : List String} (hi : PInv s) (t : Nat) (ht : t < s.nw)
+    (h : writerStep s t = some (s', ev)) : PInv s' := by
+  unfold writerStep at h
+  split at h
+  · cases h
+  · -- acq
+    rename_i hpc
+    split at h
+    · rename_i hl
+      injection h with h; injection h with h _; subst h
+      exact pinv_acquire hi t ht hpc hl
+    · injection h with h; injection h with h _; subst h
+      exact pinv_spin hi t ht .yld (Or.inl hpc) (Or.inr rfl)
+  · rename_i hpc
+    injection h with h; injection h with h _; subst h
+    exact pinv_spin hi t ht .acq (Or.inr hpc) (Or.inl rfl)
+  · -- fence
+    rename_i hpc
+    injection h with h; injection h with h _; subst h
+    have hh : s.holder = some t := (hi.cs t).mp (by simp [hpc, inCs])
+    obtain ⟨m, rest, hm, hf, _, _⟩ := hi.link t hh
+    have hu := hf hpc
+    refine pinv_holder_step hi t ht hh (.wr 8) rfl s.fifo s.unsent s.wi rfl ?_
+    intro m' rest' hm'
+    rw [hm] at hm'; injection hm' with e1 e2; subst e1
+    refine ⟨?_, ?_, ?_⟩
+    · intro h; cases h
+    · intro rem hr
+      rcases hr with hr | hr
+      · injection hr with hr; subst hr; simp [hu]
+      · cases hr
+    · intro h; cases h
+  · -- wr rem
+    rename_i rem hpc
+    have hh : s.holder = some t := (hi.cs t).mp (by simp [hpc, inCs])
+    obtain ⟨m, rest, hm, _, hw, _⟩ := hi.link t hh
+    obtain ⟨hu, hr0, hr8⟩ := hw rem (Or.inl hpc)
+    simp only [] at h
+    split at h
+    · injection h with h; injection h with h _; subst h
+      refine pinv_holder_step hi t ht hh (.slp rem) rfl s.fifo s.unsent s.wi rfl ?_
+      intro m' rest' hm'
+      rw [hm] at hm'; injection hm' with e1 e2; subst e1
+      refine ⟨?_, ?_, ?_⟩
+      · intro h; cases h
+      · intro rem' hr
+        rcases hr with hr | hr
+        · cases hr
+        · injection hr with hr; subst hr; exact ⟨hu, hr0, hr8⟩
+      · intro h; cases h
+    · injection h with h; injection h with h _; subst h
+      have hn := xfer_le_req rem (s.cap - s.fifo.length) (script s.wchunks s.wi)
+      generalize xfer rem (s.cap - s.fifo.length) (script s.wchunks s.wi) = n at hn ⊢
+      have hbytes : ((msgBytes ((s.todo t).headD 0)).drop (8 - rem)).take n = s.unsent.take n := by
+        rw [hm, hu]; rfl
+      have hlen : s.unsent.length = rem := by rw [hu]; simp [msgBytes_length]; omega
+      refine pinv_holder_step hi t ht hh _ ?_ _ (s.unsent.drop n) (s.wi + 1) ?_ ?_
+      · split <;> rfl
+      · rw [hbytes, List.append_assoc, List.take_append_drop]
+      · intro m' rest' hm'
+        rw [hm] at hm'; injection hm' with e1 e2; subst e1
+        refine ⟨?_, ?_, ?_⟩
+        · intro h; split at h <;> cases h
+        · intro rem' hr
+          split at hr
+          · rcases hr with hr | hr <;> cases hr
+          · rename_i hne
+            rcases hr with hr | hr
+            · injection hr with hr; subst hr
+              refine ⟨?_, by omega, by omega⟩
+              rw [hu, List.drop_drop]
+              congr 1; omega
+            · cases hr
+        · intro h
+          split at h
+          · rename_i he
+            apply List.drop_eq_nil_of_le; omega
+          · cases h
+  · -- slp rem
+    rename_i rem hpc
+    injection h with h; injection h with h _; subst h
+    have hh : s.holder = some t := (hi.cs t).mp (by simp [hpc, inCs])
+    obtain ⟨m, rest, hm, _, hw, _⟩ := hi.link t hh
+    obtain ⟨hu, hr0, hr8⟩ := hw rem (Or.inr hpc)
+    refine pinv_holder_step hi t ht hh (.wr rem) rfl s.fifo s.unsent s.wi rfl ?_
+    intro m' rest' hm'
+    rw [hm] at hm'; injection hm' with e1 e2; subst e1
+    refine ⟨?_, ?_, ?_⟩
+    · intro h; cases h
+    · intro rem' hr
+      rcases hr with hr | hr
+      · injection hr with hr; subst hr; exact ⟨hu, hr0, hr8⟩
+      · cases hr
+    · intro h; cases h
+  · -- unl
+    rename_i hpc
+    injection h with h; injection h with h _; subst h
+    exact pinv_unlock hi t ht hpc
+
+theorem readerStep_inv {s s' : St} {ev : List String} (hi : PInv s) (t : Nat)
+    (h : readerStep s t = some (s', ev)) : PInv s' := by
+  obtain ⟨hrd, hfe, hyd⟩ := hi.rbuf
+  unfold readerStep at h
+  split at h
+  · cases h
+  · -- rd off
+    rename_i off hpc
+    obtain ⟨hbl, ho8⟩ := hrd off (Or.inl hpc)
+    split at h
+    · split at h
+      · rename_i h0
+        injection h with h; injection h with h _; subst h
+        refine pinv_reader hi s.buf s.fifo s.delivered .yld s.ri rfl ⟨?_, ?_, ?_⟩ hi.groups
+        · intro o ho; rcases ho with ho | ho <;> cases ho
+        · intro ho; cases ho
+        · intro _; exact List.length_eq_zero_iff.mp (by omega)
+      · injection h with h; injection h with h _; subst h
+        refine pinv_reader hi s.buf s.fifo s.delivered (.slp off) s.ri rfl ⟨?_, ?_, ?_⟩ hi.groups
+        · intro o ho
+          rcases ho with ho | ho
+          · cases ho
+          · injection ho with ho; subst ho; exact ⟨hbl, ho8⟩
+        · intro ho; cases ho
+        · intro ho; rcases ho with ho | ho <;> cases ho
+    · simp only [] at h
+      injection h with h; injection h with h _; subst h
+      have hn1 := xfer_le_req (8 - off) s.fifo.length (script s.rchunks s.ri)
+      have hn2 := xfer_le_avail (8 - off) s.fifo.length (script s.rchunks s.ri)
+      generalize xfer (8 - off) s.fifo.length (script s.rchunks s.ri) = n at hn1 hn2 ⊢
+      have hlen : (s.buf ++ s.fifo.take n).length = off + n := by
+        simp [List.length_take]; omega
+      refine pinv_reader hi _ _ s.delivered _ (s.ri + 1) ?_ ⟨?_, ?_, ?_⟩ hi.groups
+      · rw [List.append_assoc, List.take_append_drop]
+      · intro o ho
+        split at ho
+        · rcases ho with ho | ho <;> cases ho
+        · rcases ho with ho | ho
+          · injection ho with ho; subst ho; exact ⟨hlen, by omega⟩
+          · cases ho
+      · intro ho
+        split at ho
+        · rename_i he; rw [hlen]; exact he
+        · cases ho
+      · intro ho
+        split at ho <;> (rcases ho with ho | ho <;> cases ho)
+  · -- slp off
+    rename_i off hpc
+    obtain ⟨hbl, ho8⟩ := hrd off (Or.inr hpc)
+    injection h with h; injection h with h _; subst h
+    refine pinv_reader hi s.buf s.fifo s.delivered (.rd off) s.ri rfl ⟨?_, ?_, ?_⟩ hi.groups
+    · intro o ho
+      rcases ho with ho | ho
+      · injection ho with ho; subst ho; exact ⟨hbl, ho8⟩
+      · cases ho
+    · intro ho; cases ho
+    · intro ho; rcases ho with ho | ho <;> cases ho
+  · -- yld
+    rename_i hpc
+    have hb := hyd (Or.inl hpc)
+    injection h with h; injection h with h _; subst h
+    refine pinv_reader hi s.buf s.fifo s.delivered (.rd 0) s.ri rfl ⟨?_, ?_, ?_⟩ hi.groups
+    · intro o ho
+      rcases ho with ho | ho
+      · injection ho with ho; subst ho; simp [hb]
+      · cases ho
+    · intro ho; cases ho
+    · intro ho; rcases ho with ho | ho <;> cases ho
+  · -- fence
+    rename_i hpc
+    have hb := hfe hpc
+    simp only [] at h
+    injection h with h; injection h with h _; subst h
+    refine pinv_reader hi [] s.fifo (s.delivered ++ [s.buf]) _ s.ri ?_ ⟨?_, ?_, ?_⟩ ?_
+    · simp [List.append_assoc]
+    · intro o ho
+      split at ho
+      · rcases ho with ho | ho <;> cases ho
+      · rcases ho with ho | ho
+        · injection ho with ho; subst ho; simp
+        · cases ho
+    · intro ho; split at ho <;> cases ho
+    · intro _; rfl
+    · intro g hg
+      simp only [List.mem_append, List.mem_singleton] at hg
+      rcases hg with hg | hg
+      · exact hi.groups g hg
+      · subst hg; exact hb
+
+theorem step_inv {s s' : St} {ev : List String} (hi : PInv s) (tok : Tok)
+    (h : step s tok = some (s', ev)) : PInv s' := by
+  unfold step at h
+  split at h
+  · rename_i ht; exact writerStep_inv hi _ ht h
+  · split at h
+    · exact readerStep_inv hi _ h
+    · cases h
+
+/-! ## initial state, reachable states, the stream argument -/
+
+theorem init_pinv (c : Conf) : PInv (mkInit c) := by
+  constructor
+  · exact Or.inl rfl
+  · simp [mkInit]
+  · intro w
+    simp only [mkInit]
+    split <;> simp [inCs]
+  · intro w hw; simp [mkInit] at hw
+  · intro _; rfl
+  · simp [mkInit, cur]
+  · intro w; simp [mkInit, proj]
+  · intro w hw
+    simp only [mkInit] at hw ⊢
+    split at hw
+    · rename_i h; intro e; simp only [List.getD_eq_getElem?_getD] at e; simp [e] at h
+    · rcases hw with hw | hw <;> cases hw
+  · intro w hw
+    simp only [mkInit] at hw ⊢
+    split at hw
+    · cases hw
+    · rename_i h
+      by_cases hlt : w < c.progs.length
+      · simp only [hlt, true_and, Decidable.not_not] at h
+        simpa using h
+      · have : c.progs[w]? = none := List.getElem?_eq_none (Nat.le_of_not_lt hlt)
+        simp [this]
+  · refine ⟨?_, ?_, ?_⟩
+    · intro off ho
+      simp only [mkInit] at ho ⊢
+      split at ho
+      · rcases ho with ho | ho <;> cases ho
+      · rcases ho with ho | ho
+        · injection ho with ho; subst ho; simp
+        · cases ho
+    · intro ho; simp only [mkInit] at ho; split at ho <;> cases ho
+    · intro _; rfl
+  · intro g hg; simp [mkInit] at hg
+  · intro w hw
+    simp only [mkInit] at hw ⊢
+    have : ¬ w < c.progs.length := by omega
+    simp [this]
+
+/-- two lists of 8-byte groups whose concatenations agree up to a tail: the shorter list of
+groups is a prefix of the other -/
+theorem aligned : ∀ (A B : List (List Nat)) (r : List Nat),
+    (∀ a ∈ A, a.length = 8) → (∀ b ∈ B, b.length = 8) → A.flatten ++ r = B.flatten →
+    A = B.take A.length := by
+  intro A
+  induction A with
+  | nil => intro B r _ _ _; simp
+  | cons a A ih =>
+    intro B r hA hB h
+    have ha : a.length = 8 := hA a (by simp)
+    cases B with
+    | nil =>
+      simp at h
+      have := h.1
+      rw [this] at ha; simp at ha
+    | cons b B =>
+      have hb : b.length = 8 := hB b (by simp)
+      simp only [List.flatten_cons, List.append_assoc] at h
+      have := List.append_inj h (by rw [ha, hb])
+      obtain ⟨e1, e2⟩ := this
+      subst e1
+      have := ih B r (fun x hx => hA x (by simp [hx])) (fun x hx => hB x (by simp [hx])) e2
+      simp only [List.length_cons, List.take_succ_cons]
+      rw [← this]
+
+theorem reach_pinv (c : Conf) : ∀ s, Reach step (mkInit c) s → PInv s :=
+  Reach.inv PInv (init_pinv c) (fun _ tok _ _ hi h => step_inv hi tok h)
+
+/-- the committed pointers (lock order), followed by the pointer whose write is in progress -/
+def committed (s : St) : List Nat := s.doneLog.map Prod.snd ++ cur s
+
+theorem delivered_prefix {s : St} (hi : PInv s) :
+    s.delivered = ((committed s).map msgBytes).take s.delivered.length := by
+  have h := hi.stream
+  have : ((committed s).flatMap msgBytes) = ((committed s).map msgBytes).flatten := by
+    rw [List.flatMap_def]
+  unfold committed at this
+  rw [this] at h
+  exact aligned s.delivered ((s.doneLog.map Prod.snd ++ cur s).map msgBytes) _ hi.groups (by
+    intro b hb
+    simp only [List.mem_map] at hb
+    obtain ⟨m, _, rfl⟩ := hb
+    exact msgBytes_length m) h
+
+theorem holder_none_of_done {s : St} (hi : PInv s) (hd : ∀ w, w < s.nw → s.wpc w = .done) : s.holder = none := by
+  cases hh : s.holder with
+  | none => rfl
+  | some w =>
+    have h1 := (hi.cs w).mpr hh
+    have h2 : s.wpc w = .done := by
+      by_cases hw : w < s.nw
+      · exact hd w hw
+      · exact hi.outside w (Nat.le_of_not_lt hw)
+    rw [h2] at h1; simp [inCs] at h1
+
+theorem delivered_complete {s : St} (hi : PInv s) (hd : ∀ w, w < s.nw → s.wpc w = .done)
+    (hf : s.fifo = []) (hb : s.buf = []) :
+    s.delivered = (s.doneLog.map Prod.snd).map msgBytes := by
+  have hn := holder_none_of_done hi hd
+  have hu := hi.idle hn
+  have h := hi.stream
+  simp only [hf, hb, hu, cur, hn, List.append_nil] at h
+  rw [List.flatMap_def] at h
+  have := aligned s.delivered ((s.doneLog.map Prod.snd).map msgBytes) [] hi.groups (by
+    intro b hb
+    simp only [List.mem_map] at hb
+    obtain ⟨m, _, rfl⟩ := hb
+    exact msgBytes_length m) (by simpa using h)
+  have hlen : s.delivered.length = ((s.doneLog.map Prod.snd).map msgBytes).length := by
+    have h1 : s.delivered.flatten.length = 8 * s.delivered.length := by
+      rw [List.length_flatten]
+      have : s.delivered.map List.length = List.replicate s.delivered.length 8 := by
+        apply List.eq_replicate_iff.mpr
+        refine ⟨by simp, ?_⟩
+        intro x hx
+        simp only [List.mem_map] at hx
+        obtain ⟨g, hg, rfl⟩ := hx
+        exact hi.groups g hg
+      rw [this]; simp [Nat.mul_comm]
+    have h2 : (((s.doneLog.map Prod.snd).map msgBytes).flatten).length = 8 * ((s.doneLog.map Prod.snd).map msgBytes).length := by
+      rw [List.length_flatten]
+      have : ((s.doneLog.map Prod.snd).map msgBytes).map List.length = List.replicate ((s.doneLog.map Prod.snd).map msgBytes).length 8 := by
+        apply List.eq_replicate_iff.mpr
+        refine ⟨by simp, ?_⟩
+        intro x hx
+        simp only [List.mem_map] at hx
+        obtain ⟨g, ⟨m, _, rfl⟩, rfl⟩ := hx
+        exact msgBytes_length m
+      rw [this]; simp [Nat.mul_comm]
+    rw [h] at h1
+    omega
+  rw [this, hlen, List.take_length]
+
+theorem step_const {s s' : St} {ev : List String} {tok : Tok} (h : step s tok = some (s', ev)) :
+    s'.progs = s.progs ∧ s'.nw = s.nw := by
+  unfold step at h
+  split at h
+  · unfold writerStep at h
+    simp only [] at h
+    split at h <;> (try split at h) <;> (try cases h) <;> (try exact ⟨rfl, rfl⟩)
+    all_goals (injection h with h; injection h with h _; subst h; exact ⟨rfl, rfl⟩)
+  · split at h
+    · unfold readerStep at h
+      simp only [] at h
+      split at h <;> (try split at h) <;> (try split at h) <;> (try cases h) <;> (try exact ⟨rfl, rfl⟩)
+      all_goals (injection h with h; injection h with h _; subst h; exact ⟨rfl, rfl⟩)
+    · cases h
+
+theorem reach_const (c : Conf) : ∀ s, Reach step (mkInit c) s → s.progs = (mkInit c).progs ∧ s.nw = (mkInit c).nw :=
+  Reach.inv (fun s => s.progs = (mkInit c).progs ∧ s.nw = (mkInit c).nw) ⟨rfl, rfl⟩
+    (fun _ _ _ _ hi h => ⟨(step_const h).1.trans hi.1, (step_const h).2.trans hi.2⟩)
+
+end MgProof.C15.Pipe
